@@ -4,7 +4,7 @@
 set -e
 rel="$1"; old="$2"; new="$3"; prop="$4"; shift 4
 d=$(mktemp -d /tmp/mut.XXXXXX)
-cp -r /repo/dask_array "$d/"
+cp -r /repo/dask_array "$d/"; cp /repo/pyproject.toml "$d/"
 python3 - "$d/$rel" "$old" "$new" <<'PY'
 import sys
 p, old, new = sys.argv[1:4]
